@@ -196,7 +196,7 @@ fn build_type(
         .collect::<anyhow::Result<Vec<_>>>()?;
 
     let name_ident = str_to_ident(name.as_str());
-    let size_check_ident = quote::format_ident!("_{}_size_check", name.as_str());
+    let size_check_ident = quote::format_ident!("_{}_size_check", unraw(name.as_str()));
     let size_check_impl = (size > 0).then(|| {
         let size = hex_literal(size);
         quote! {
@@ -335,10 +335,10 @@ fn build_type(
                     let conflicting_impl_doc = doc_to_tokens(false, Some(conflicting_impl_message.trim()));
                     let conflicting_impl_ident = quote::format_ident!(
                         "_CONFLICTING_{}_{}",
-                        name.as_str().to_uppercase(),
+                        unraw(name.as_str()).to_uppercase(),
                         field_path
                             .iter()
-                            .map(|f| f.to_string().to_uppercase())
+                            .map(|f| unraw(&f.to_string()).to_uppercase())
                             .collect::<Vec<_>>()
                             .join("_")
                     );
@@ -437,7 +437,7 @@ fn build_enum(
         }
     });
 
-    let size_check_ident = quote::format_ident!("_{}_size_check", name.as_str());
+    let size_check_ident = quote::format_ident!("_{}_size_check", unraw(name.as_str()));
     let size_check_impl = (size > 0).then(|| {
         let size = hex_literal(size);
         quote! {
@@ -593,7 +593,7 @@ fn build_function(function: &Function) -> Result<proc_macro2::TokenStream, anyho
 
 fn build_extern_value(ev: &ExternValue) -> anyhow::Result<proc_macro2::TokenStream> {
     let visibility = visibility_to_tokens(ev.visibility);
-    let function_ident = quote::format_ident!("get_{}", ev.name);
+    let function_ident = quote::format_ident!("get_{}", unraw(&ev.name));
     let type_ = sa_type_to_syn_type(&ev.type_)?;
     let address = hex_literal(ev.address);
 
@@ -605,7 +605,16 @@ fn build_extern_value(ev: &ExternValue) -> anyhow::Result<proc_macro2::TokenStre
 }
 
 fn str_to_ident(s: &str) -> syn::Ident {
-    quote::format_ident!("{}", s)
+    // `format_ident!` panics on raw identifiers such as `r#type`
+    match s.strip_prefix("r#") {
+        Some(raw) => syn::Ident::new_raw(raw, proc_macro2::Span::call_site()),
+        None => quote::format_ident!("{}", s),
+    }
+}
+
+/// The name without a raw-identifier prefix, for use as part of a longer identifier.
+fn unraw(s: &str) -> &str {
+    s.strip_prefix("r#").unwrap_or(s)
 }
 
 fn fully_qualified_type_ref_impl(out: &mut String, type_ref: &Type) -> Result<(), std::fmt::Error> {
